@@ -370,6 +370,5 @@ class MCLevyCopulaSimulationMaximumStep(
         )
 
         if jump_times.size == 0:
-            return jump_times, jump_values
-        else:
-            return self.build_finer_grid(jump_times, jump_values)
+            jump_values = np.zeros(shape=(self._dimension, 0))
+        return self.build_finer_grid_up_to_maturity(jump_times, jump_values)
